@@ -21,6 +21,7 @@ THEOREMS = [
     "MoreExec.BoolOp.C14_output_cancel_fans_out",
     "MoreExec.BoolOp.C14_step_closed_form",
     "MoreExec.BoolOp.C14_repeated_inputs",
+    "MoreExec.BoolOp.C14_source_facts",
 ]
 KERNELS = ["K5"]
 BUDGET = {"quick": 120, "thorough": 1200}
